@@ -1104,3 +1104,69 @@ def r_operand_multiplicity(prog: Program, col: Collector, refs: Refs, cat: Catal
     if not n:
         col.unresolved("funsor.cnf::occurrence counter", "no Counter-based occurrence count found in the Contraction rules", "funsor/cnf.py")
 
+
+# ---------------------------------------------------------------------- reduced variables no operand mentions, tensor kernels
+
+
+def r_absent_vars_kernel(prog: Program, col: Collector, refs: Refs, cat: Catalogue, rule: str):
+    """The einsum kernel of the eager tensor contractions removes the reduced variables from the result's inputs with a tolerant
+    `inputs.pop(var.name, None)`: a reduced variable that NO operand mentions is dropped without its n-fold multiplicity
+    (sum over i of a[j]*b[j] is 3*a*b for |i| = 3).  Every caller must therefore hand the kernel only variables the operands
+    mention and reduce the absent ones separately with its own reduction op (or the kernel must refuse them)."""
+    col.rule(rule, "tensor contraction kernels are not given reduced variables that no operand mentions", floor=1)
+    kernels = []
+    for f in prog.funcs.values():
+        if isinstance(f.node, ast.Lambda) or f.module.name != "funsor.cnf":
+            continue
+        if not any(isinstance(n, ast.Call) and (refs.resolve(n.func) or "").endswith("opt_einsum.contract") for n in walk_no_nested(f.node)):
+            continue
+        for lp in [n for n in walk_no_nested(f.node) if isinstance(n, ast.For) and isinstance(n.iter, ast.Name) and n.iter.id in f.positional]:
+            tolerant = [c for c in ast.walk(lp) if isinstance(c, ast.Call) and isinstance(c.func, ast.Attribute) and c.func.attr == "pop" and len(c.args) == 2]
+            if tolerant:
+                kernels.append((f, f.positional.index(lp.iter.id)))
+    if not kernels:
+        col.unresolved("funsor.cnf::tensor contraction kernel", "no einsum kernel that pops reduced variables found", "funsor/cnf.py")
+        return
+    for k, idx in kernels:
+        # a guard inside the kernel itself?
+        guarded_inside = any(isinstance(n, ast.Compare) and len(n.ops) == 1 and isinstance(n.ops[0], (ast.LtE, ast.Lt)) and norm(n.left) == k.positional[idx]
+                             for n in walk_no_nested(k.node)) or any(isinstance(n, ast.Call) and isinstance(n.func, ast.Attribute) and n.func.attr == "issubset"
+                                                                     and norm(n.func.value) == k.positional[idx] for n in walk_no_nested(k.node))
+        for mod, call in refs.calls_to(f"{k.module.name}.{k.name}"):
+            fn = mod.enclosing_function(call)
+            f = prog.func_of(fn) if fn is not None else None
+            if f is None or f is k or len(call.args) <= idx:
+                continue
+            arg = call.args[idx]
+            construct = f"{f.fq}::{norm(call)[:80]}"
+            if guarded_inside:
+                col.ok(construct, "the kernel itself refuses variables its operands do not mention", mod.loc(call))
+                continue
+            defs = {}
+            for n in walk_no_nested(f.node):
+                if isinstance(n, ast.Assign) and len(n.targets) == 1 and isinstance(n.targets[0], ast.Name):
+                    defs.setdefault(n.targets[0].id, []).append(n.value)
+
+            def is_absent(e):
+                """<vars> - <union of the operands' input_vars>"""
+                if isinstance(e, ast.Name) and len(defs.get(e.id, [])) == 1:
+                    e = defs[e.id][0]
+                return isinstance(e, ast.BinOp) and isinstance(e.op, ast.Sub) and any(isinstance(x, ast.Attribute) and x.attr in ("input_vars", "inputs") for x in ast.walk(e.right))
+
+            restricted = isinstance(arg, ast.BinOp) and isinstance(arg.op, ast.Sub) and is_absent(arg.right)
+            if isinstance(arg, ast.Name) and len(defs.get(arg.id, [])) == 1:
+                d = defs[arg.id][0]
+                restricted = restricted or (isinstance(d, ast.BinOp) and isinstance(d.op, (ast.Sub, ast.BitAnd)) and (is_absent(d.right) or any(
+                    isinstance(x, ast.Attribute) and x.attr in ("input_vars", "inputs") for x in ast.walk(d.right))))
+            compensated = any(isinstance(n, ast.Call) and isinstance(n.func, ast.Attribute) and n.func.attr == "reduce" and len(n.args) == 2 and norm(n.args[0]) == f.positional[0]
+                              and is_absent(n.args[1]) for n in walk_no_nested(f.node))
+            if isinstance(arg, ast.Name) and arg.id in f.positional and not restricted:
+                col.violation(construct, f"the rule hands all of its `{arg.id}` to the einsum kernel, which silently drops those that no operand mentions: "
+                              "sum over i of a[j]*b[j] evaluates to a*b instead of |i|*a*b (logaddexp/add: the + log|i| is lost)", mod.loc(call))
+            elif restricted and compensated:
+                col.ok(construct, "only variables the operands mention reach the kernel; the absent ones are reduced with the rule's own op", mod.loc(call))
+            elif restricted:
+                col.violation(construct, "the variables no operand mentions are split off but never reduced: their multiplicity is lost", mod.loc(call))
+            else:
+                col.unresolved(construct, f"variable set argument `{norm(arg)}` not recognised", mod.loc(call))
+
